@@ -520,6 +520,79 @@ def run(tier, seed, replay):
             if abs(s.full()[0, 0] - 0.5) > 1e-8:
                 v("limit:pure-dephasing-populations", f"pure dephasing changes the populations: {s.full()[0, 0]}", {"w0": w0})
                 break
+    # ------------------------------------------------------------------ entry points and initial operators
+    # Zero depth / vanishing coupling reproduce the system's own evolution also (a) through heomsolve with call-time args,
+    # whatever form the time-dependent Hamiltonian is written in, and (b) for an initial operator that is not Hermitian
+    # (a coherence, an odd-parity operator, A rho of a correlation function); pure dephasing of a single coherence.
+    try:
+        import scipy.linalg as _sl
+        from qutip.solver.heom import heomsolve
+        sz, sx, sy = qutip.sigmaz(), qutip.sigmax(), qutip.sigmay()
+        tls = [0.0, 0.4, 1.1, 1.7]
+        old_args, new_args = {"A": 0.2, "w": 1.0}, {"A": float(rng.choice([1.3, -0.9])), "w": float(rng.choice([2.0, 0.6]))}
+        Hlist = [0.5 * sz, [0.4 * sx, "A*cos(w*t)"], [0.3 * sy, lambda t, A: A * t]]
+        rho_t = qutip.ket2dm((qutip.basis(2, 0) + (0.3 + 0.4j) * qutip.basis(2, 1)).unit())
+        mopt = {"progress_bar": "", "nsteps": 50000, "atol": 1e-11, "rtol": 1e-9}
+        ref = [x.full() for x in qutip.mesolve(qutip.liouvillian(qutip.QobjEvo(Hlist, args=new_args)), rho_t, tls, options=mopt).states]
+        forms = {"list": lambda: Hlist, "QobjEvo": lambda: qutip.QobjEvo(Hlist, args=old_args),
+                 "liouvillian-QobjEvo": lambda: qutip.liouvillian(qutip.QobjEvo(Hlist, args=old_args))}
+        for depth, ck in ((0, 0.07), (2, 0.0)):
+            for fname, mkH in forms.items():
+                bath = BosonicBath(sz + 0.1 * sx, [ck], [1.0], [], [], combine=False)
+                routes = {"heomsolve(args=)": lambda: heomsolve(mkH(), bath, depth, rho_t, tls, args=new_args, options=OPT),
+                          "HEOMSolver.run(args=)": lambda: HEOMSolver(qutip.QobjEvo(mkH(), args=old_args) if fname == "list" else mkH(), bath, depth, options=OPT).run(rho_t, tls, args=new_args)}
+                for rname, fn in routes.items():
+                    try:
+                        with warnings.catch_warnings():
+                            warnings.simplefilter("ignore")
+                            with core.time_limit(300):
+                                got = [x.full() for x in fn().states]
+                    except core.CaseTimeout:
+                        raise
+                    except Exception as e:      # noqa
+                        v(f"entry-raises:{rname}:{fname}", f"{rname} with H given as {fname}: {type(e).__name__}: {e}"[:240])
+                        continue
+                    rep.evaluations += 1
+                    rep.count("entry-point-args")
+                    dd = max(np.abs(a - b).max() for a, b in zip(ref, got))
+                    if dd > 1e-6:
+                        v(f"limit:args:{rname}:{fname}", f"{rname}, H(t) given as {fname} with arguments {old_args} and args={new_args} at the call, {'zero depth' if depth == 0 else 'vanishing coupling'}: "
+                          f"states differ from mesolve with the new arguments by {dd:.2e}", {"form": fname, "route": rname, "depth": depth, "args": new_args})
+        # (b) initial operators that are not Hermitian
+        Hc = 0.5 * sz + 0.3 * sx + 0.2 * sy
+        Lc = qutip.liouvillian(Hc, [0.3 * qutip.sigmam()]).full()
+        Xs = {"coherence": qutip.Qobj(np.array([[0, 1.0], [0, 0]], dtype=complex)), "A-rho": qutip.sigmam() * rho_t, "complex": qutip.Qobj(np.array([[0.2, 1j], [0.5, 0.1j]]))}
+        for xname, X0 in Xs.items():
+            for depth, ck, odd in ((0, 0.07, False), (2, 0.0, False), (0, 0.07, True)):
+                try:
+                    with warnings.catch_warnings():
+                        warnings.simplefilter("ignore")
+                        with core.time_limit(300):
+                            if odd:
+                                fb = FermionicBath(qutip.sigmam(), [ck], [1.0], [ck], [1.0])
+                                hs = HEOMSolver(qutip.liouvillian(Hc, [0.3 * qutip.sigmam()]), fb, depth, odd_parity=True, options=OPT)
+                            else:
+                                hs = HEOMSolver(qutip.liouvillian(Hc, [0.3 * qutip.sigmam()]), BosonicBath(sz, [ck], [1.0], [], [], combine=False), depth, options=OPT)
+                            res = hs.run(X0, tls)
+                except core.CaseTimeout:
+                    raise
+                except Exception as e:      # noqa
+                    v(f"nonherm-raises:{xname}", f"initial operator {xname}: {type(e).__name__}: {e}"[:240])
+                    continue
+                rep.evaluations += 1
+                rep.count("non-hermitian-initial-operator")
+                for t, st, ado in zip(tls, res.states, res.ado_states):
+                    want = (_sl.expm(Lc * t) @ X0.full().reshape(-1, order="F")).reshape(2, 2, order="F")
+                    dd = np.abs(st.full() - want).max()
+                    d2 = np.abs(ado.extract(0).full() - want).max()
+                    if max(dd, d2) > 1e-6:
+                        v(f"limit:non-hermitian:{xname}", f"initial operator {xname} (not Hermitian), {'zero depth' if depth == 0 else 'vanishing coupling'}{', odd parity' if odd else ''}: the "
+                          f"{'state' if dd > 1e-6 else 'system block of the stored hierarchy'} at t={t} differs from exp(Lt) X0 by {max(dd, d2):.2e}", {"operator": xname, "depth": depth, "odd": odd})
+                        break
+    except core.CaseTimeout:
+        raise
+    except Exception as e:      # noqa
+        v("entry-block-raises", f"{type(e).__name__}: {e}"[:240])
     for sig, (what, data) in viol.items():
         rep.violation(core.Violation("C19:" + sig, what, data))
     if (ndis or not proved) and not rep.violations:
